@@ -11,6 +11,11 @@ C  direct oracle on the REAL code, metamorphic: index A (one bulk row) vs index 
    data row ID, same order) vs B' (B permuted) vs solo indexes (one row, fresh parser each):
    names / order, canonical JSON up to invented uuids, Lean-checked bisimulation as a second
    opinion, equal outcome (same errors) when the template cannot be instantiated.
+   Second stream (harness/c12_mixed.py): templates legal with AND without a data row (`default` / `is defined`),
+   one index mixing bulk / single / data-less rows of the same template, the block inserted with and without data
+   in both orders: every flow must send exactly what the template evaluated with ITS row and arguments says
+   (computed by the generator, independent of the real code) and equal the same instance generated in a permuted
+   index, as explicit single rows in the opposite order, and alone by a fresh parser.
 """
 from __future__ import annotations
 
@@ -18,13 +23,15 @@ import json
 import logging
 import random
 import re
+import time
 
+from .. import c12_mixed as M
 from .. import core, par
 from ..flows import LogCapture, canon_flow, mem_reader, rename_uuids_by_first_occurrence, rows_to_csv
 from ..gen import sheets as G
 
 MANIFEST = dict(
-    text="Proof: Lean theorems over a line-by-line model of parse_all_flows / _parse_flow / map_template_arguments_to_context with the template compiler as an abstract function of (template, flow name, context): bulk_eq_singles (anywhere in an index and after any history a bulk row may be replaced by the single rows naming each data row, in data order: same flows, same order, same error), bulk_names (one flow per data row, in data order, named `<name> - <ID>`, the k-th being the instance of the k-th row), args_positional / args_spec / args_extras_ignored / args_extras_warn / args_trailing_blank / args_doubly_defined / args_missing / args_sheet_unknown (positional binding, default, missing, doubly defined, sheet, extras), no_leak (the flow left under `base - i` is an expression in the index row, the registries and i only, whatever was generated before or around it) and no_leak_frame (it depends on the data sheets only through row i and the sheets its `sheet` arguments name), bulk_order_independent (if no name is defined twice, permuting the index rows gives the same flow per name). In a functional model these are close to definitional — they fix the specification; the weight is on the tie: the REAL code is run on index A (bulk row) / B (one row per ID) / B' (permuted) / one fresh parser per instance, for generated templates (loops over data lists, ranges and `sheet` arguments, include_if on data fields, inserted blocks with arguments, nested fields, all argument kinds, leakage probes incl. templates that mutate their context) and must give the same names, order, canonical JSON (and Lean-checked bisimilar flows) or the same errors; model mapArgs / parseAllFlows are compared with the real methods on the same inputs.",
+    text="Proof: Lean theorems over a line-by-line model of parse_all_flows / _parse_flow / map_template_arguments_to_context with the template compiler as an abstract function of (template, flow name, context): bulk_eq_singles (anywhere in an index and after any history a bulk row may be replaced by the single rows naming each data row, in data order: same flows, same order, same error), bulk_names (one flow per data row, in data order, named `<name> - <ID>`, the k-th being the instance of the k-th row), args_positional / args_spec / args_extras_ignored / args_extras_warn / args_trailing_blank / args_doubly_defined / args_missing / args_sheet_unknown (positional binding, default, missing, doubly defined, sheet, extras), no_leak (the flow left under `base - i` is an expression in the index row, the registries and i only, whatever was generated before or around it) and no_leak_frame (it depends on the data sheets only through row i and the sheets its `sheet` arguments name), bulk_order_independent (if no name is defined twice, permuting the index rows gives the same flow per name). In a functional model these are close to definitional — they fix the specification; the weight is on the tie: the REAL code is run on index A (bulk row) / B (one row per ID) / B' (permuted) / one fresh parser per instance, for generated templates (loops over data lists, ranges and `sheet` arguments, include_if on data fields, inserted blocks with arguments, nested fields, all argument kinds, leakage probes incl. templates that mutate their context) and must give the same names, order, canonical JSON (and Lean-checked bisimilar flows) or the same errors; a second stream generates templates that are legal with and without a data row (every variable read through `default` / `is defined`, declared arguments none or defaulted), instantiated in one index in bulk, as single rows and without any data, in both orders, the template inserting a block with data, without, or both: every flow must send exactly the messages the generator computes from its own row and arguments (independent of the real code) and equal the same instance in a permuted index, as explicit rows in the opposite order and generated alone; model mapArgs / parseAllFlows are compared with the real methods on the same inputs.",
     ref="§5 C12",
     note="Trusts: Lean kernel; harness generators and canonicaliser; Driver JSON codec; that FlowParser is a function of (table, name, context) is NOT proved — it is what the A/B/B'/solo comparison tests on every case. Row IDs are assumed non-blank (hypothesis of bulk_names, negative witness needs_nonblank_ids; known finding F-C12-a: a data row with a blank ID is instantiated as a flow called `<name>` with an empty context). Arguments that are themselves lists are outside the model.",
     technique="Lean 4 proof (structural induction over association-list dictionaries, permutation lemmas) + metamorphic bulk-vs-single check on the real code + model/code differential run",
@@ -852,6 +859,167 @@ def shrink_case(case, drv, perm):
     return cur, cur_p
 
 
+# ------------------------------------------------------------------ oracle C, second stream: instances with and without data
+
+
+def flow_texts(flow):
+    return [a.get("text") for nd in flow.get("nodes", []) for a in nd.get("actions", []) if a.get("type") == "send_msg"]
+
+
+def check_mixed(case: dict, drv, rng: random.Random | None = None, perm=None, solo=None, want_tie=True, light=False):
+    """Oracle C on the real code for a case of harness/c12_mixed.py.  Returns (status, problems, info).
+    light: the index against the generator's expectation only (no second runs) — used while shrinking."""
+    insts = case["insts"]
+    exp = M.expected_instances(case, insts)
+    names = [n for n, _, _ in exp]
+    if perm is None or sorted(perm) != list(range(len(insts))):
+        perm = list(range(len(insts)))
+        if rng is not None and len(insts) > 1:
+            while perm == list(range(len(insts))):
+                rng.shuffle(perm)
+        else:
+            perm.reverse()
+    if solo is None:
+        solo = list(names)
+        if rng is not None and len(solo) > 3:
+            solo = rng.sample(solo, 3)
+        solo = solo[:8]
+    R = run_index(M.workbook(case, insts))
+    # (label, run, the instances it holds)
+    others = [] if light else [
+        ("the same index rows permuted", run_index(M.workbook(case, [insts[k] for k in perm])), names),
+        ("one explicit row per instance, in the opposite order", run_index(M.workbook(case, [i for _, i, _ in reversed(exp)])), names)]
+    for nm, inst, _ in exp:
+        if nm in solo and not light:
+            others.append((f"{nm!r} generated alone by a fresh parser", run_index(M.workbook(case, [inst])), [nm]))
+    problems = []
+    info = {"R": R, "perm": perm, "solo": solo, "pairs": 0, "ties": [], "status": None}
+
+    def rej(r):
+        return [r.exc, r.errors[:3]]
+
+    if not R.ok:
+        # valid by construction: every variable is read through `default` / `is defined`
+        fine = [label for label, o, _ in others if o.ok]
+        if fine:
+            problems.append(("the index is rejected, but the same instances compile " + fine[0], {"index": rej(R)}))
+        info["status"] = "rejected"
+        return ("rejected" if not problems else "violation"), problems, info
+    got_names = [f["name"] for f in R.doc["flows"]]
+    if got_names != names:
+        problems.append(("flows are not one per index row / data row, in index and data order, named <name>[ - <ID>]",
+                         {"expected": names, "got": got_names}))
+    fr = flows_by_name(R.doc)
+    for k, (nm, inst, texts) in enumerate(exp):
+        if len(fr.get(nm, [])) != 1:
+            continue
+        got = flow_texts(fr[nm][0])
+        if got != texts:
+            how = f"data row {inst['row_id']!r} of {inst['sheet']!r}" if inst["row_id"] else "NO data row"
+            problems.append((f"instance {nm!r} ({inst['tmpl']} with {how}, arguments {inst['given']}) does not send what the "
+                             "template evaluated with its own row and arguments says",
+                             {"expected": texts, "got": got, "instances_generated_before": names[:k]}))
+    for label, o, held in others:
+        if not o.ok:
+            problems.append((f"the index compiles but is rejected as: {label}", {"rejected": rej(o)}))
+            continue
+        fo = flows_by_name(o.doc)
+        for nm in held:
+            if len(fr.get(nm, [])) != 1:
+                continue
+            if len(fo.get(nm, [])) != 1:
+                problems.append((f"flow {nm!r} is missing or defined twice in: {label}", {"names": [f["name"] for f in o.doc["flows"]]}))
+                continue
+            d = first_diff(canon1(fr[nm][0]), canon1(fo[nm][0]))
+            if d:
+                problems.append((f"instance {nm!r} differs between the index and: {label} (canonical JSON up to invented uuids)",
+                                 {"first_difference": d, "order": perm if label.endswith("permuted") else None}))
+    if want_tie and not light:
+        tie_reqs = [(label, run, tie_req(run)) for label, run in (("mixed", R), ("mixed permuted", others[0][1]))]
+        tie_reqs = [t for t in tie_reqs if t[2] is not None]
+        answers = drv.results([t[2] for t in tie_reqs]) if tie_reqs else []
+        info["ties"] = [(label, tie_eval(run, ans)) for (label, run, _), ans in zip(tie_reqs, answers)]
+    info["status"] = "ok"
+    return ("ok" if not problems else "violation"), problems, info
+
+
+def shrink_mixed(case, drv):
+    """drop index rows, then template rows, then data rows, while some problem persists (permutation: reversed)"""
+    light = [True]
+
+    def failing(c):
+        try:
+            _, problems, _ = check_mixed(c, drv, None, want_tie=False, light=light[0])
+        except core.Infra:
+            raise
+        except Exception:  # noqa: BLE001
+            return None
+        return problems or None
+
+    cur_p = failing(case)
+    if not cur_p:
+        light[0] = False        # the problem shows between runs only
+        cur_p = failing(case)
+    if not cur_p:
+        return case, None
+    cur = case
+    for key, keep in (("insts", 1), ("trows", 1), ("data", 1)):
+        changed = True
+        while changed and len(cur[key]) > keep:
+            changed = False
+            for k in range(len(cur[key]) - 1, -1, -1):
+                if key == "trows" and cur[key][k]["tag"] == "first":
+                    continue
+                cand = dict(cur, **{key: cur[key][:k] + cur[key][k + 1:]})
+                if key == "data":
+                    gone = cur["data"][k]["ID"]
+                    if any(i["row_id"] == gone and i["sheet"] == "data" for i in cur["insts"]):
+                        continue
+                    cand["ids"] = [i for i in cur["ids"] if i != gone]
+                p = failing(cand)
+                if p:
+                    cur, cur_p, changed = cand, p, True
+                    break
+    return cur, cur_p
+
+
+def mixed_worker(args):
+    seed, n = args
+    rng = random.Random(seed)
+    drv = core.Driver()
+    stats, bad, ties, keys = {}, [], [], []
+    sample = None
+
+    def bump(k, v=1):
+        stats[k] = stats.get(k, 0) + v
+
+    for _ in range(n):
+        case = M.gen_mixed(rng)
+        status, problems, info = check_mixed(case, drv, rng)
+        bump("mixed_cases")
+        bump("mixed_outcome_" + status)
+        bump("mixed_instances", len(M.expand(case, case["insts"])))
+        for f in case["features"]:
+            bump("mixed_feat_" + f)
+        wb = M.workbook(case, case["insts"])
+        keys.append(json.dumps(wb, sort_keys=True))
+        if sample is None and status == "ok" and len(case["insts"]) >= 3:
+            sample = {"content_index": wb["content_index"], "otmpl": wb["otmpl"], "oblk": wb["oblk"],
+                      "flows": [[f["name"], flow_texts(f)] for f in info["R"].doc["flows"]]}
+        if status == "rejected" and not problems:
+            ties.append({"what": "generator: a mixed case meant to be valid is rejected by the real code (every way equally)",
+                         "errors": [info["R"].exc, info["R"].errors[:2]], "generator_bug": True})
+        for what, detail in problems:
+            bad.append({"case": case, "what": what, "detail": detail, "perm": info["perm"], "solo": info["solo"]})
+        for label, d in info.get("ties", []):
+            if d is not None:
+                ties.append({"what": f"model parseAllFlows vs real parse_all_flows ({label})", "detail": d})
+            else:
+                bump("tie_run_agree")
+    return {"stats": stats, "bad": bad[:8], "n_bad": len(bad), "ties": ties[:8],
+            "gen_bugs": len([t for t in ties if t.get("generator_bug")]), "keys": keys, "sample": sample}
+
+
 # ------------------------------------------------------------------ known finding F-C12-a (blank row ID)
 
 
@@ -889,6 +1057,25 @@ def known_blank_id(ck: core.Check):
                  {"workbook": wb(""), "flows": names_bad, "warnings": bad.warnings, "errors": bad.errors})
 
 
+def report_mixed(ck: core.Check, drv, bad: list, shrink: int = 3):
+    """one violation per failing workbook (its first problem); the first few are shrunk"""
+    seen = set()
+    for b in bad:
+        key = json.dumps(b["case"], sort_keys=True)
+        if key in seen:
+            continue
+        seen.add(key)
+        if len(seen) > 12:
+            break
+        case, what, detail, perm, solo = b["case"], b["what"], b["detail"], b["perm"], b["solo"]
+        if len(seen) <= shrink:
+            small, probs = shrink_mixed(case, drv)
+            if probs:
+                case, (what, detail), perm, solo = small, probs[0], None, None
+        ck.violation(what, {"mixed_case": case, "order_of_permuted_rows": perm, "generated_alone": solo, "detail": detail,
+                            "workbook": M.workbook(case, case["insts"])})
+
+
 # ------------------------------------------------------------------ run
 
 
@@ -902,7 +1089,12 @@ def run(ck: core.Check):
         "list, a data range and a `sheet` argument, include_if on data fields, inserted block with arguments, waits, groups; argument definitions "
         "positional / defaulted / required / sheet-typed, arguments given / blank / omitted / extra; optionally a plain flow starting an instance; "
         "leakage probes; argument and reference faults) compiled by the real code as bulk row, as single rows in data order, as single rows "
-        "permuted, and one instance per fresh parser; distinct = distinct workbook text. mapArgs tie: generated (definitions, arguments, context)."
+        "permuted, and one instance per fresh parser; distinct = distinct workbook text. Second stream: a template and a block whose cells read "
+        "every variable through `default` / `is defined` (legal with and without a data row; declared arguments none or defaulted), an index of "
+        "1..6 rows mixing bulk / single / data-less instances of the template and of the block, the template inserting the block with data, "
+        "without, or both in either order; each flow must send the texts the generator computes from its own row and arguments and equal the "
+        "same instance in a permuted index, as explicit rows in the opposite order, and alone. "
+        "mapArgs tie: generated (definitions, arguments, context)."
     )
     ck.assumptions = [
         "row IDs are non-blank (known finding F-C12-a) and pairwise distinct (OrderedDict keeps one row per ID: ofRows_keys_nodup)",
@@ -914,12 +1106,20 @@ def run(ck: core.Check):
         "uuid threading between instances is compared on the real code only (canonical renaming per flow and per container)",
     ]
     drv = core.Driver()
+    phases, t_phase = {}, [time.time()]     # wall seconds per stream → evidence
+
+    def phase(name):
+        phases[name] = round(time.time() - t_phase[0], 1)
+        t_phase[0] = time.time()
+        ck.extra["phase_seconds"] = phases
+
     n_total = 320 if quick else 3200
     nshards = par.NPROC * (1 if quick else 4)
     kinds = ["valid"] * 6 + ["probe"] * 3 + ["malformed"] * 1
     jobs = [(ck.rng.randrange(1 << 60), max(1, n_total // nshards), kinds) for _ in range(nshards)]
     total_pairs = 0
     gen_bugs = 0
+    gen_bugs_mixed = 0
     bad_all = []
     for r in par.pmap(case_worker, jobs):
         for k, v in r["stats"].items():
@@ -944,6 +1144,29 @@ def run(ck: core.Check):
     for b in bad_all[3:20]:
         ck.violation(b["what"], {"case": b["case"], "order_of_permuted_rows": b["perm"], "detail": b["detail"]})
     ck.extra["certificate_pairs_validated"] = total_pairs
+    phase("bulk_vs_single_stream")
+
+    # second stream: templates legal with and without a data row, bulk / single / data-less instances mixed
+    n_mixed = 80 if quick else 800
+    jobs = [(ck.rng.randrange(1 << 60), max(1, n_mixed // nshards)) for _ in range(nshards)]
+    bad_mixed = []
+    for r in par.pmap(mixed_worker, jobs):
+        for k, v in r["stats"].items():
+            ck.count(k, int(v))
+        gen_bugs_mixed += r["gen_bugs"]
+        for key in r["keys"]:
+            ck.case(key, nontrivial=True)
+        if r["sample"] and not any("otmpl" in x for x in ck.samples):
+            ck.samples.append(r["sample"])
+        for t in r["ties"]:
+            if t.get("generator_bug"):
+                ck.notes.append("generator: " + json.dumps(t, ensure_ascii=False)[:300])
+            else:
+                ck.tie_break(t["what"], t["detail"])
+        bad_mixed += r["bad"]
+    phase("mixed_stream")
+    report_mixed(ck, drv, bad_mixed)
+    phase("mixed_shrink")
 
     # tie B1: mapArgs
     n_map = 4000 if quick else 60000
@@ -956,6 +1179,7 @@ def run(ck: core.Check):
         for t in r["ties"]:
             ck.tie_break("model mapArgs vs real map_template_arguments_to_context", t)
 
+    phase("mapargs_tie")
     # the negative witness of Props/C12.lean replayed on the real code + known finding stream
     known_blank_id(ck)
 
@@ -965,6 +1189,9 @@ def run(ck: core.Check):
         for r in par.pmap(case_worker, jobs):
             for b in r["bad"][:2]:
                 ck.violation(b["what"], {"case": b["case"], "order_of_permuted_rows": b["perm"], "detail": b["detail"]})
+        jobs = [(ck.rng.randrange(1 << 60), 30) for _ in range(par.NPROC * 2)]
+        for r in par.pmap(mixed_worker, jobs):
+            report_mixed(ck, drv, r["bad"][:2], shrink=0)
         ck.search_ran = True
 
     if ck.violations or ck.tie_breaks or not ck.lean.ok:
@@ -973,7 +1200,13 @@ def run(ck: core.Check):
         return
     if gen_bugs > max(3, ck.strata.get("cases_valid", 0) // 20):
         raise core.Infra(f"generator: {gen_bugs} cases meant to be valid are rejected by the real code")
-    need = ["feat_loop_items", "feat_loop_sheet_arg", "feat_include_if_data", "feat_insert_as_block", "feat_arg_sheet",
+    if gen_bugs_mixed > 2:
+        raise core.Infra(f"generator: {gen_bugs_mixed} mixed cases meant to be valid are rejected by the real code")
+    need = ["mixed_outcome_ok", "mixed_feat_dataless_after_data", "mixed_feat_data_after_dataless", "mixed_feat_tmpl_args_none",
+            "mixed_feat_tmpl_args_defaulted", "mixed_feat_block_args_none", "mixed_feat_inst_bulk", "mixed_feat_inst_single",
+            "mixed_feat_inst_dataless", "mixed_feat_insert_by_ref", "mixed_feat_insert_data_then_dataless",
+            "mixed_feat_insert_dataless_then_data", "mixed_feat_include_if_is_defined", "mixed_feat_cell_is_defined",
+            "feat_loop_items", "feat_loop_sheet_arg", "feat_include_if_data", "feat_insert_as_block", "feat_arg_sheet",
             "feat_arg_defaulted", "feat_arg_positional", "feat_arg_extra_blank", "feat_nested_field", "outcome_ok", "outcome_rejected",
             "feat_probe_loop_var", "mapargs_ok", "mapargs_argDoublyDefined", "mapargs_argMissing", "mapargs_sheetNotFound",
             "mapargs_warn_too_many", "tie_run_agree", "data_rows_1", "data_rows_5"]
@@ -985,6 +1218,19 @@ def run(ck: core.Check):
 def replay(path):
     rec = json.load(open(path))
     print(json.dumps({k: v for k, v in rec.items() if k != "replay"}, indent=1, ensure_ascii=False)[:3000])
+    mixed = rec.get("replay", {}).get("mixed_case")
+    if mixed:
+        drv = core.Driver()
+        status, problems, info = check_mixed(mixed, drv, None, perm=rec["replay"].get("order_of_permuted_rows"),
+                                             solo=rec["replay"].get("generated_alone"))
+        print("status:", status)
+        for what, detail in problems:
+            print("-", what)
+            print("  ", json.dumps(detail, ensure_ascii=False, default=str)[:1500])
+        wb = M.workbook(mixed, mixed["insts"])
+        for n in ("content_index", "data", "otmpl", "oblk"):
+            print(f"{n}:\n" + wb[n])
+        return 1 if problems else 0
     case = rec.get("replay", {}).get("case")
     if case:
         drv = core.Driver()
